@@ -88,7 +88,8 @@ class FallbackClient:
     def gets(self, key):
         for cache in self.caches:
             result = cache.gets(key)
-            if result is not None:
+            # a miss is None or Client's (default, cas_default) == (None, None)
+            if result is not None and result != (None, None):
                 return result
         return None
 
